@@ -67,6 +67,7 @@ func setDiff(got, want map[uint32]bool) string {
 func metaExpect(m *metaModel, groups [][]modelFilter, seen map[string]bool) (alts []map[uint32]bool, sharp bool) {
 	unknown := false
 	for _, g := range groups {
+		_, g := splitGroup(g)
 		for _, f := range g {
 			if f.impl.Operator == comet.OpExists || f.impl.Operator == comet.OpNotExists {
 				continue
@@ -78,7 +79,23 @@ func metaExpect(m *metaModel, groups [][]modelFilter, seen map[string]bool) (alt
 	}
 	if !unknown {
 		ids, ok := m.evalGroups(groups, m.schema.types)
-		return []map[uint32]bool{ids}, ok
+		alts = []map[uint32]bool{ids}
+		// the other two readings of "two-decimal fixed point" (they differ only for negative inexact floats)
+		for mode := 1; mode <= 2; mode++ {
+			m.fxMode = mode
+			other, _ := m.evalGroups(groups, m.schema.types)
+			m.fxMode = 0
+			dup := false
+			for _, a := range alts {
+				if sameSet(a, other) {
+					dup = true
+				}
+			}
+			if !dup {
+				alts = append(alts, other)
+			}
+		}
+		return alts, ok
 	}
 	for _, asType := range []fieldType{ftInt, ftString, ftAbsent} {
 		types := map[string]fieldType{}
@@ -88,6 +105,7 @@ func metaExpect(m *metaModel, groups [][]modelFilter, seen map[string]bool) (alt
 			}
 		}
 		for _, g := range groups {
+			_, g := splitGroup(g)
 			for _, f := range g {
 				if _, ok := types[f.impl.Field]; !ok {
 					types[f.impl.Field] = asType
@@ -108,7 +126,7 @@ func runC04(r *ev.Run) {
 	r.Rule = "case = schema of 3-5 typed fields + Add/Remove history over distinct ids (values incl. negative/zero/large ints, floats with >2 decimals, empty strings, strings with ':'); " +
 		"every few ops a battery of 8-20 filter expressions (each operator, Not(f) of each, AND lists, 1-3 OR groups x 1-4 filters, builder API, empty list, operands present/absent, fields absent from the index) " +
 		"compared by exact set equality with a model doing ordinary comparison; non-trivial = expression over a field the index knows that matched a non-empty proper subset; distinct by (state digest, expression)"
-	r.Assumptions = []string{"floats generated only where truncation/rounding/floor of v*100 agree (multiples of 0.25; (n+0.3)/100, n>=0)",
+	r.Assumptions = []string{"two-decimal fixed point: for negative floats with more than two (binary-exact) decimals truncation, floor and rounding of v*100 differ and the property picks none; the model is evaluated under each reading, applied to stored values and operands alike, and an answer equal to any of them is accepted (everywhere else the three agree)",
 		"open corner: a filter on a field the index has never seen has no defined type: error, numeric reading or categorical reading accepted",
 		"field names contain no ':'"}
 	n := r.Pick(400, 8000)
@@ -177,7 +195,7 @@ func runC04(r *ev.Run) {
 				return
 			}
 			sig := "meta.composition"
-			if len(groups) == 1 && len(groups[0]) == 1 {
+			if len(groups) == 1 && len(groups[0]) == 1 && groups[0][0].impl.Operator != opOrGroupMarker {
 				f := groups[0][0]
 				t := "unknown-field"
 				if ft, ok := schema.types[f.impl.Field]; ok && seen[f.impl.Field] {
@@ -211,19 +229,19 @@ func runC04(r *ev.Run) {
 					run("and-list", [][]modelFilter{g}, func() ([]comet.MetadataResult, error) {
 						return idx.NewSearch().WithFilters(fs...).Execute()
 					})
-				case 3: // groups
+				case 3: // groups (AND groups, and FilterGroup{Logic: OR} = any-of groups)
 					var groups [][]modelFilter
 					var fgs []*comet.FilterGroup
 					for gi := 0; gi < 1+rng.IntN(3); gi++ {
 						var g []modelFilter
-						fg := &comet.FilterGroup{Logic: comet.AND}
+						if rng.IntN(3) == 0 {
+							g = append(g, orGroupMarker())
+						}
 						for k := 0; k < 1+rng.IntN(4); k++ {
-							f := genLeaf(rng, m, absent && gi == 0 && k == 0)
-							g = append(g, f)
-							fg.Filters = append(fg.Filters, f.impl)
+							g = append(g, genLeaf(rng, m, absent && gi == 0 && k == 0))
 						}
 						groups = append(groups, g)
-						fgs = append(fgs, fg)
+						fgs = append(fgs, cometGroup(g))
 					}
 					run("groups", groups, func() ([]comet.MetadataResult, error) {
 						return idx.NewSearch().WithFilterGroups(fgs...).Execute()
